@@ -582,7 +582,7 @@ func TestVerifC13(t *testing.T) {
 		{"reset", "req exec 1 0 w1,p2,w3"}, {"reset", "req request 0 1 b,w1,p2,c"},
 	}
 	r := vfNewRng(13)
-	cases := vfScale(500, 30000)
+	cases := vfScale(350, 30000)
 	var segOps, segImpl [][]string
 	for _, c := range corpus {
 		segOps = append(segOps, c)
